@@ -12,7 +12,7 @@
    valid levels (what LevelsList.for_grid produces). *)
 From Coq Require Import ZArith List Bool Arith.
 Import ListNotations.
-From MP Require Import Base Grid Seed Seed_proofs.
+From MP Require Import Base Grid Seed Gen_seed_id Seed_proofs.
 Local Open Scope Z_scope.
 
 (* ---- survives interruption *)
@@ -160,8 +160,8 @@ Proof. exact resume_covers_geo_lemma. Qed.
    The list consists exactly of the tiles of the grid that belong to the meta tile of t and pass the filter: no member
    that needs work is left out (the defect repaired by the commit), nothing outside the meta tile is added. *)
 Theorem handed_tiles_exactly_the_members :
-  forall g msx msy keep tx ty l c,
-    In c (handed_tiles g msx msy false keep (tx, ty, l)) <->
+  forall g msx msy womt keep tx ty l c,
+    In c (handed_tiles g msx msy womt false keep (tx, ty, l)) <->
     exists x y,
       c = (x, y, l) /\ keep c = true /\
       (let '(sx, sy) := meta_size g msx msy l in
@@ -171,16 +171,55 @@ Proof. exact handed_tiles_spec. Qed.
 
 (* the single tiles of the observable trace are the handed-over members of the meta tiles of the walk *)
 Theorem observed_tiles_are_handed :
-  forall g msx msy hall keep evs,
-    oprocs (observe g msx msy hall keep evs) = handed_all g msx msy hall keep evs.
+  forall g msx msy womt hall keep evs,
+    oprocs (observe g msx msy womt hall keep evs) = handed_all g msx msy womt hall keep evs.
 Proof. exact oprocs_observe. Qed.
 
 (* resume_covers on the single tiles handed over, for either mode and any (fixed) cache content *)
 Theorem resume_covers_handed :
-  forall g msx msy cov skipk levels root k j lv id hall keep,
+  forall g msx msy cov skipk levels root k j lv id womt hall keep,
     geo_wf g msx msy -> levels_wf g levels -> levels <> [] ->
     nth_error (geo_walk g msx msy cov skipk levels root None) j = Some (ERep lv id) -> (j < k)%nat ->
-    incl (handed_all g msx msy hall keep (geo_walk g msx msy cov skipk levels root None))
-         (handed_all g msx msy hall keep (firstn k (geo_walk g msx msy cov skipk levels root None)) ++
-          handed_all g msx msy hall keep (geo_walk g msx msy cov skipk levels root id)).
+    incl (handed_all g msx msy womt hall keep (geo_walk g msx msy cov skipk levels root None))
+         (handed_all g msx msy womt hall keep (firstn k (geo_walk g msx msy cov skipk levels root None)) ++
+          handed_all g msx msy womt hall keep (geo_walk g msx msy cov skipk levels root id)).
 Proof. exact resume_covers_handed_lemma. Qed.
+
+(* caches with upscale_tiles / downscale_tiles (work_on_metatiles = False) and refresh_all: the call hands over every
+   tile of the grid that lies in the meta tile *)
+Theorem handed_tiles_rescale_all_members :
+  forall g msx msy keep tx ty l c,
+    In c (handed_tiles g msx msy false true keep (tx, ty, l)) <->
+    exists x y,
+      c = (x, y, l) /\
+      (let '(sx, sy) := meta_size g msx msy l in
+       tx / sx * sx <= x <= tx / sx * sx + sx - 1 /\ ty / sy * sy <= y <= ty / sy * sy + sy - 1) /\
+      (let '(nx, ny) := grid_size g l in 0 <= x < nx /\ 0 <= y < ny).
+Proof. exact handed_tiles_rescale_all_spec. Qed.
+
+(* ---- one progress entry per task *)
+
+(* seed_task_id is generated from SeedTask.id (translator/specs/seed_id.py -> gen/Gen_seed_id.v): the id determines
+   name, cache, grid and level list, so different tasks of a seed run never share a progress entry ... *)
+Theorem task_id_injective :
+  forall n c g l n' c' g' l',
+    seed_task_id n c g l = seed_task_id n' c' g' l' -> n = n' /\ c = c' /\ g = g' /\ l = l'.
+Proof. exact seed_task_id_injective. Qed.
+
+(* ... in particular the tasks of the one-task-per-level split that seed/config.py makes for rescaling caches *)
+Theorem per_level_tasks_have_distinct_ids :
+  forall n c g levels, NoDup levels -> NoDup (map (fun l => seed_task_id n c g [l]) levels).
+Proof. exact per_level_ids_distinct. Qed.
+
+(* The progress store (dict id -> identifier): whatever the other tasks of the run write, before, between or after
+   the runs of a task, the entry this task reads back is the one its own last persisted report wrote.  Hence every
+   task of a seed run has its own `history` and resume_covers_history applies to it. *)
+Theorem progress_entries_independent :
+  forall n c g l others s,
+    (forall w, In w others -> exists n' c' g' l', fst w = seed_task_id n' c' g' l' /\ (n, c, g, l) <> (n', c', g', l')) ->
+    store_get id_eqb (store_adds s others) (seed_task_id n c g l) = store_get id_eqb s (seed_task_id n c g l).
+Proof. exact progress_entries_independent_lemma. Qed.
+
+Theorem progress_entry_own_write :
+  forall n c g l s v, store_get id_eqb (store_add s (seed_task_id n c g l) v) (seed_task_id n c g l) = v.
+Proof. exact progress_entry_own_write_lemma. Qed.
